@@ -239,8 +239,8 @@ def to_string(value: JSValue) -> str:
             return "Infinity"
         if value == float("-inf"):
             return "-Infinity"
-        # Handle -0
-        if value == 0 and math.copysign(1, value) < 0:
+        # Handle +0 and -0
+        if value == 0:
             return "0"
         return _double_to_string(value)
     if isinstance(value, str):
